@@ -228,6 +228,10 @@ def report_to_fix(rep: dict, style: int = 0):
     from asyncfix import FIXMessage
 
     m = FIXMessage(rep["35"])
+    if rep["35"] == "8" and rep.get("150") == "F" and style != 1:
+        # LastQty / LastPx: optional tags the order never reads
+        m["32"] = fmt(rep["14"] if isinstance(rep.get("14"), int) else 0, style)
+        m["31"] = fmt(rep["6"] if isinstance(rep.get("6"), int) else 0, style)
     for tag, v in rep.items():
         if tag == "35" or v is None:
             continue
@@ -400,6 +404,7 @@ class Link:
             side = FOrdSide(side)
             ord_type = FOrdType(ord_type)
         cls = hooked_class() if subclass else FIXNewOrderSingle
+        self.dict_account = isinstance(account, dict)
         self.order = cls(root, ticker, side, typed(price, ptype == "int"), typed(qty, qtype == "int"), ord_type, account)
         self.c2e = []   # real FIXMessages
         self.e2c = []   # abstract report dicts
@@ -447,6 +452,7 @@ class Link:
             if isinstance(o, hooked_class()):
                 o.plan, o.calls, o.seen = plan, 0, None
         if k in ("cNew", "cCancel", "cReplace"):
+            created = str(getattr(o.status, "value", o.status)) == "Z"
             try:
                 if k == "cNew":
                     m = o.new_req()
@@ -457,7 +463,10 @@ class Link:
                     q = math.nan if a[2] is None else typed(a[2], self.argint)
                     m = o.replace_req(p, q)
             except BaseException as e:  # noqa
-                return ["raise", exc_kind(e)]
+                kind = exc_kind(e)
+                if k == "cNew" and self.dict_account and kind == "Assertion" and created:
+                    kind = "Hook"   # set_account() refuses a dict account: same place and effect as a raising hook
+                return ["raise", kind]
             finally:
                 if plan is not None:
                     o.plan = None
@@ -472,6 +481,17 @@ class Link:
                 return ["empty"]
             self.last_report = self.e2c.pop(0)
             return self.feed(self.last_report, style)
+        if k == "cRecvOmit":
+            # the next report arrives without the optional Price (bit 1) / OrderQty (bit 2) tags
+            if not self.e2c:
+                return ["empty"]
+            rep = dict(self.e2c.pop(0))
+            if a[1] & 1:
+                rep["44"] = None
+            if a[1] & 2:
+                rep["38"] = None
+            self.last_report = rep
+            return self.feed(rep, style)
         if k == "feed":
             self.last_report = a[1]
             return self.feed(a[1], style)
